@@ -466,6 +466,10 @@ fn cmd_check(args: &Args) -> i32 {
                 }
                 agg.add(i, seed, &o);
                 if let Some(v) = &o.violation {
+                    if v.property == "HARNESS" {
+                        harness_errors.push(format!("run {i} seed {seed}: {}: {}", v.kind, v.detail));
+                        continue;
+                    }
                     // only the profile's own property counts (C09 handles attribution itself)
                     if v.property == profile {
                         violations.push((i, seed, o));
